@@ -50,8 +50,10 @@ func (m *MessageServerKeyExchange) Marshal() ([]byte, error) { //nolint:cyclop
 	out = append(out, byte(m.EllipticCurveType), 0x00, 0x00)
 	binary.BigEndian.PutUint16(out[len(out)-2:], uint16(m.NamedCurve))
 
-	//nolint:gosec // G115, no risk of overflow, the biggest supported curve is 97 bytes.
-	out = append(out, byte(len(m.PublicKey)))
+	if len(m.PublicKey) > 255 {
+		return nil, dtlserrors.ErrPublicKeyTooLong
+	}
+	out = append(out, byte(len(m.PublicKey))) //nolint:gosec // G115: public key length is validated to be <= 255 above.
 	out = append(out, m.PublicKey...)
 	switch {
 	case m.HashAlgorithm != hash.None && len(m.Signature) == 0:
